@@ -205,8 +205,14 @@ package commitlog
 // from the FIRST
 //@ ghost var lastRecovered *entry
 //@ ghost var firstRecovered *entry
-//@ func (*segment).setupIndex serves C09, C01
+//@ ghost var tailRecovered bool
+//@ func (*segment).setupIndex serves C09, C01, C05
 //@   assumes s != nil
+// (C05) whatever the index holds - also nothing at all: the first append into a segment may be the one the process died
+// in - the bytes of the log file that the index does not cover are dealt with before the segment is used
+//@   ghost at entry: ghost.tailRecovered := false
+//@   ghost after call recoverTail: ghost.tailRecovered := ghost.tailRecovered || ret1 == nil
+//@   ensures [C05:the-unindexed-tail-of-the-log-file-is-dealt-with-on-every-open] result == nil ==> ghost.tailRecovered
 //@   ghost at entry: ghost.lastRecovered := nil
 //@   ghost at entry: ghost.firstRecovered := nil
 //@   ghost after call recoverTail: ghost.lastRecovered := ret0
